@@ -148,7 +148,20 @@ class Case:
 
 def make_net(A, directed, W=None):
     from pyunicorn.core.network import Network
-    net = Network(adjacency=np.array(A, dtype=np.int8), directed=directed, silence_level=3)
+    Ad = np.array(A, dtype=np.int8)
+    adj = Ad
+    n_ = Ad.shape[0]
+    if n_ >= 3 and (int(Ad.sum()) + 2 * n_) % 4 == 0:
+        # the same 0/1 matrix as a SciPy sparse matrix that physically stores some zeros (left behind by `M.setdiag(0)`,
+        # `M.data = M.data > t`, `M[i, j] = 0`): measures are functions of the VALUES of the adjacency matrix
+        import scipy.sparse as sp_
+        li, lj = np.nonzero(Ad)
+        zi, zj = np.nonzero(Ad == 0)
+        keep = (zi * 5 + zj * 3) % 3 == 0
+        rows, cols = np.concatenate([li, zi[keep]]), np.concatenate([lj, zj[keep]])
+        data = np.concatenate([np.ones(len(li), dtype=np.int8), np.zeros(int(keep.sum()), dtype=np.int8)])
+        adj = sp_.csr_matrix(sp_.coo_matrix((data, (rows, cols)), shape=(n_, n_)))
+    net = Network(adjacency=adj, directed=directed, silence_level=3)
     if W is not None:
         net.set_link_attribute("w", np.array(W, dtype=float))
     return net
@@ -491,6 +504,11 @@ def check_weighted(c, net, A, W, directed):
               [(n - 1) / sum(row) for row in Dn], nontrivial=True)
     if cl is not None:
         c.cmp("closeness/link-weighted", lambda: net.closeness("w"), cl, nontrivial=nt)
+        # the same definition for link lengths in very small / very large units (every pair connected): (N-1) / sum_j d_ij
+        for unit in (1e-12, 1e-200, 1e150):
+            Wu = [[W[i][j] * unit for j in range(n)] for i in range(n)]
+            c.cmp("closeness/link-weighted-units-%g" % unit, lambda Wu=Wu: make_net(A, directed, Wu).closeness("w"),
+                  [v / unit for v in cl], nontrivial=nt)
         if S.is_connected(hops):
             def pr():
                 x = np.asarray(net.pagerank("w"), dtype=float)
